@@ -128,7 +128,7 @@ def _index(rng, tables):
 def _sequence(rng, tables):
     opts = rng.sample(["INCREMENT BY 1", "START WITH 10", "MINVALUE 0", "MAXVALUE 99999", "CACHE 5", "NOCYCLE",
                        "INCREMENT 10", "START 5", "NOORDER", "NO MAXVALUE"], rng.randint(0, 4))
-    return "CREATE SEQUENCE %s %s;" % (_tname(rng), " ".join(opts))
+    return "CREATE SEQUENCE %s%s %s;" % ("IF NOT EXISTS " if rng.random() < 0.25 else "", _tname(rng), " ".join(opts))
 
 
 def _type(rng, tables):
